@@ -841,3 +841,28 @@ Proof.
               mf r o' 1 fuel VUndef res Hres ltac:(split; lia) ltac:(lia) ltac:(lia) Hf) as (st' & r1 & o1 & E1 & E2).
   exists r1, o1. unfold lp_loc in E1. rewrite E1, E2. destruct res as [[r' o'']|]; reflexivity.
 Qed.
+
+(* ------------------------------------------------------------------ vi.c: vi_nextoff (space / backspace) *)
+Theorem tr_vi_nextoff m lb bln lbs lines br bo r o dir d fuel : lbuf_at m lb bln lbs lines -> lines_small lines ->
+  (maxlen lines < fuel)%nat -> cell_at m br r -> cell_at m bo o -> i32 r -> i32 o -> i32 (o + dir) ->
+  callf cprog fuel (S (S (S d))) F_vi_nextoff [VPtr lb 0; VInt dir; VPtr br 0; VPtr bo 0] m
+  = match vi_nextoff (map chop lines) dir (r, o) with
+    | Some (false, (_, o')) => Ok (VInt 0, upd m bo [VInt o'])
+    | _ => Ok (VInt 1, m)
+    end.
+Proof.
+  intros R Hsm Hf Hr Ho Ir Io Iod. unfold vi_nextoff, lbuf_lnnext. rewrite getl_rowidx.
+  enter F_vi_nextoff cf_vi_nextoff. xstep.
+  rewrite (load_cell m bo o Ho). xstep. rewrite wrap_I32_id by exact Io. rewrite chk_I32 by exact Iod. xstep.
+  destruct (Z.ltb_spec (o + dir) 0) as [L|L]; xstep.
+  { destruct (rowidx lines r); reflexivity. }
+  rewrite (load_cell m br r Hr). xstep. rewrite wrap_I32_id by exact Ir.
+  rewrite (tr_lbuf_get m lb bln lbs lines r (S d) fuel R Hsm). unfold line_ptr.
+  destruct (rowidx lines r) as [i|] eqn:Ei; xstep; [|reflexivity].
+  destruct (rowidx_lt _ _ _ Ei) as [Hi _].
+  rewrite (load_cell m br r Hr). xstep. rewrite wrap_I32_id by exact Ir.
+  rewrite (tr_lbuf_get m lb bln lbs lines r (S d) fuel R Hsm). unfold line_ptr. rewrite Ei. xstep.
+  rewrite (slen_line m lb bln lbs lines i d fuel R Hsm Hf Hi). xstep. cbn [option_map orb].
+  rewrite Z.geb_leb. destruct (Z.leb_spec (slen (chop (nthl lines i))) (o + dir)); xstep; [reflexivity|].
+  rewrite wrap_I32_id by exact Iod. rewrite (store_cell m bo o _ Ho). xstep. reflexivity.
+Qed.
